@@ -33,6 +33,7 @@ type chainCase struct {
 	Send      int        `json:"send"`
 	Reqs      []reqSpec  `json:"reqs"`
 	Pipelined bool       `json:"pipelined,omitempty"` // bolt: all requests written before any answer is awaited
+	RetryOn   bool       `json:"retry_on,omitempty"`  // the routes carry a retry policy: an answer of a filter must never be "retried" upstream
 }
 
 var answerCodes = []int{200, 403, 404, 429, 500, 503}
@@ -48,6 +49,7 @@ func honoured(v byte, phase int) bool {
 // re-choose verdict in a phase that does not honour it (part "misplaced").
 func genCase(rt *rapid.T, misplaced bool) chainCase {
 	c := chainCase{Proto: rapid.SampledFrom([]string{"Http1", "bolt"}).Draw(rt, "proto")}
+	c.RetryOn = rapid.Bool().Draw(rt, "routeRetryOn")
 	nReq := rapid.IntRange(1, 3).Draw(rt, "nreq")
 	for i := 0; i < nReq; i++ {
 		c.Reqs = append(c.Reqs, reqSpec{
